@@ -320,6 +320,29 @@ class Ctx:
             self.violate('must-pass|%s|%s|%s' % (f.path, start.desc if start else 'entry', '/'.join(sorted({p.desc for p in through})) or 'summaries'),
                          'MUST-PASS violated: %s' % desc, f, start.line if start else f.line, path)
 
+    def each_iteration_passes(self, f, targets, what, key):
+        """every iteration of the loop(s) whose body contains a target passes a target before the
+        loop advances (reaches its `Iterator::next` again) or the function returns successfully."""
+        if f is None or not targets:
+            return
+        nxt = [c for c in f.calls if c.matches('Iterator::next') and not f.blocks[c.bb]['c']]
+        e_none = core.guard_edges(f, [Guard(call='Iterator::next', vals={'None'})])
+        tb = {t.bb for t in targets}
+        n_checked = 0
+        for n_ in nxt:
+            others = {m.bb for m in nxt if m.bb != n_.bb}
+            r0 = core.reach(f, start=(n_.bb, len(f.blocks[n_.bb]['s']) - 1), cut_edges=e_none, cut_blocks=others)
+            if not any(b in r0['term'] for b in tb):
+                continue  # not the loop around the target
+            n_checked += 1
+            r = core.reach(f, start=(n_.bb, len(f.blocks[n_.bb]['s']) - 1), cut_edges=e_none, cut_blocks=tb | core.error_blocks(f))
+            looped = any(f.succ(bb_)[si_][0] == n_.bb for (bb_, si_) in r['edges'])
+            fin = any(rb in r['term'] for rb in f.ret_blocks())
+            self._ob(not (looped or fin), self.sample('must-pass', f, n_.line, what))
+            if looped or fin:
+                self.violate('must-pass|%s|%s' % (f.path, key), 'loop body can be completed without %s: %s' % (targets[0].desc, what), f, n_.line)
+        self.check(n_checked >= 1, 'floor|%s|%s|loop' % (f.path, key), 'the loop around %s was found' % targets[0].desc, f, f.line)
+
     def after_success(self, f, a_pattern, targets, vals=('Ok', 'Some', 'true'), what=None):
         """AFTER-SUCCESS: targets reachable only through the success edge of a call to a_pattern."""
         self.guarded(f, targets, [Guard(call=a_pattern, vals=set(vals))], what=what)
